@@ -239,5 +239,5 @@ def _check_cube_level(cube, sv, q, dims, rec):
 
 
 SUBCHECKS = [
-    SubCheck("cells", scen.scenario_st(ALL_SHAPES), judge, quick=2400, thorough=40000),
+    SubCheck("cells", scen.scenario_st(ALL_SHAPES, weight_kinds=scen.WEIGHTS_INEXACT), judge, quick=2400, thorough=40000),
 ]
